@@ -5,7 +5,13 @@ props=[json.loads(l)['id'] for l in open('/verif/properties.jsonl')]
 TECH="bounded symbolic execution of go/ssa (own engine) + SMT (cvc5): assertion decided for all values within stated bounds; counterexamples replayed on the real build"
 NOTE="Trusted: go/ssa + go/packages (x/tools v0.30.0), cvc5 1.0.3, the engine's SSA interpreter and its stubs for std / go/types / os (each listed with its contract in the evidence file). Bounds and what lies outside them are in the evidence (coverage.bounds / outside_bounds)."
 G="G.seq: every generated method/accessor/reset of every corpus mock (10 interfaces × flag combinations, emitted by moq built from the current tree) executed from SSA from an arbitrary receiver state with arbitrary arguments — one inductive step covers call/read/reset histories of any length; "
+HM="H.mock ((*Mocker).Mock from SSA over a model source package whose object names are symbolic, k symbolic arguments, symbolic flags and faults) "
 claimed={
+ "C02":("partial: "+HM+"— each mock wraps exactly the go/types methods/params/results of the looked-up interface in order, and the strings the real renderers (ArgList, ReturnArgTypeList, ArgCallList, evaluated from SSA after all imports are final) print equal an independent rendering of the go/types signature under the final qualifiers, variadic tail as ...T; G.seq: one function field per interface method and go/types.Implements on every non-generic corpus mock. Not claimed: identity of types behind equal strings for interfaces outside the shapes","§4 C02"),
+ "C09":("partial: "+HM+"— number and order of type parameters equal the looked-up interface's (incl. aliases of instantiated generics and self-referential constraints), each wrapping the interface's type parameter; generic corpus mocks are executed uninstantiated in G.seq. Not claimed: validity of the self-check instantiation (go/types' judgement, finding F6)","§4 C09"),
+ "C10":("partial: "+HM+"in destination modes {same, unknown, other}: package clause, SrcPkgQualifier, 'never imports its own package', source package imported iff needed with -skip-ensure, self-check qualified by the registered import. Not claimed yet: findPkgPath's mapping from -pkg to the destination path (H.pkgpath, finding F3)","§4 C10"),
+ "C14":("H.order: methodData + Registry.Imports executed twice on identical symbolic inputs with every map range (searchImport, Imports, resolveImportVarConflicts) iterating in independently chosen arbitrary orders — identifiers and the aliased import list coincide (self-composition, schedule = iteration order as solver choice)","§2.6, §4 C14"),
+ "C19":("partial: every implicit safety obligation (nil dereference, index/slice bounds, failed type assertion, explicit panic) and unwinding assertion of H.mock, H.vars, H.run, H.main, H.pairname: Mock/run/main/methodData never panic or recurse unboundedly within the harness bounds; diagnostics name the offending type; non-termination witnesses are replayed on the real CLI. Not claimed yet: resolveImportConflict over arbitrary path sets (H.imports)","§4 C19"),
  "C03":(G+"exactly one Call event on this method's own function field, same argument terms in order (variadic tail the same slice), results and panics passed through, no goroutine/recover","§4 C03"),
  "C04":(G+"len'=len+1, earlier records unchanged (skolem index), new record = arguments field by field, stored before the delegation, frame condition, snapshot invariant preserved by every operation incl. resets, element writes never inside a returned slice","§4 C04"),
  "C05":(G+"lock discipline on every path: each access to a record list under that method's lock (write lock for writes), element writes under exactly one write lock; schedule-variable encodings S.* still to be added","§4 C05"),
